@@ -808,8 +808,10 @@ func (f *Frame) havocAll(st *State, why string) {
 		keys = append(keys, k)
 	}
 	sort.Strings(keys)
+	olds := map[string]string{}
 	for _, k := range keys {
 		old := f.get(st, k)
+		olds[k] = old
 		nv := vc.fresh(k+"@havoc", vc.eng.keySort[k])
 		f.set(st, k, nv)
 		if k == "alloc" {
@@ -821,6 +823,86 @@ func (f *Frame) havocAll(st *State, why string) {
 			vc.assume(wf)
 		}
 	}
+	// Objects this function allocated and never let out of its hands (their
+	// address is only dereferenced or returned, see privateAlloc) cannot be
+	// reached by the unknown callee: their cells keep their contents.
+	for fr := f; fr != nil; fr = fr.parent {
+		if fr.curBlock == nil {
+			continue
+		}
+		for _, b := range fr.fn.Blocks {
+			if !b.Dominates(fr.curBlock) {
+				continue
+			}
+			for _, in := range b.Instrs {
+				a, ok := in.(*ssa.Alloc)
+				if !ok || !a.Heap {
+					continue
+				}
+				r, done := fr.vals[a]
+				if !done || !privateAlloc(a) {
+					continue
+				}
+				et := a.Type().(*types.Pointer).Elem()
+				var oks []string
+				if _, isS := et.Underlying().(*types.Struct); isS {
+					for i := range vc.eng.structFields(et) {
+						k, _ := vc.fieldKey(et, i)
+						oks = append(oks, k)
+					}
+				} else if at, isA := et.Underlying().(*types.Array); isA {
+					oks = append(oks, vc.elemKey(at.Elem()))
+				} else {
+					oks = append(oks, vc.cellKey(et))
+				}
+				for _, k := range oks {
+					if ov, ok := olds[k]; ok {
+						vc.assume(S("=", S("select", f.get(st, k), r), S("select", ov, r)))
+					}
+				}
+			}
+		}
+	}
+}
+
+// privateAlloc reports whether the address produced by a is only ever
+// dereferenced (directly or through field / element addresses) or returned.
+func privateAlloc(a *ssa.Alloc) bool {
+	var addrOnly func(v ssa.Value, depth int) bool
+	addrOnly = func(v ssa.Value, depth int) bool {
+		if depth > 6 || v.Referrers() == nil {
+			return false
+		}
+		for _, r := range *v.Referrers() {
+			switch x := r.(type) {
+			case *ssa.DebugRef:
+			case *ssa.UnOp:
+				if x.Op != token.MUL {
+					return false
+				}
+			case *ssa.Store:
+				if x.Val == v {
+					return false
+				}
+			case *ssa.FieldAddr:
+				if x.X != v || !addrOnly(x, depth+1) {
+					return false
+				}
+			case *ssa.IndexAddr:
+				if x.X != v || !addrOnly(x, depth+1) {
+					return false
+				}
+			case *ssa.Return:
+				if depth > 0 {
+					return false
+				}
+			default:
+				return false
+			}
+		}
+		return true
+	}
+	return addrOnly(a, 0)
 }
 
 // assumeTypeInv adds the type invariants of a freshly obtained value.
